@@ -220,19 +220,22 @@ def fitted_data_problems(sch, spec, stats):
                 bad.append(("per_level_surrogate_data_differs", level, num_data, n_obs[level], n_pend[level]))
     # fourth observation point: the feature/target matrices the GP conditions on. (a) transform_state_to_data (the function
     # GaussProcEstimator calls on this state) must return one row per fitted observation -- trials sharing a configuration
-    # (allow_duplicates) included -- followed by one row per pending evaluation, the un-normalised targets being the fitted
-    # values; (b) the posterior state of the joint GP was computed from that many rows
+    # (allow_duplicates) included --, the un-normalised targets being the fitted values; (b) the posterior state of the
+    # joint GP was computed from one row per fitted observation plus one per pending evaluation
     n_pending = len(fstate.pending_evaluations)
     try:
         from syne_tune.optimizer.schedulers.searchers.bayesopt.models.estimator import transform_state_to_data
-        nfant = 1
-        if n_pending:
-            nfant = int(next(iter(fstate.pending_evaluations[0].fantasies.values())).size)
-        data = transform_state_to_data(fstate, normalize_targets=False, num_fantasy_samples=nfant)
+        from syne_tune.optimizer.schedulers.searchers.bayesopt.datatypes.tuning_job_state import TuningJobState
+        # (the predictor's state carries its pending evaluations without the fantasy samples: observed part only here;
+        # the pending rows are covered by num_data of the posterior state below)
+        ostate = TuningJobState(hp_ranges=fstate.hp_ranges, config_for_trial=fstate.config_for_trial,
+                                trials_evaluations=fstate.trials_evaluations, failed_trials=fstate.failed_trials,
+                                pending_evaluations=[])
+        data = transform_state_to_data(ostate, normalize_targets=False, num_fantasy_samples=1)
         stats["gp_matrix_checks"] = stats.get("gp_matrix_checks", 0) + 1
         n_rows = int(data.features.shape[0])
-        if n_rows != len(fitted) + n_pending or int(data.targets.shape[0]) != n_rows:
-            bad.append(("gp_feature_rows_differ_from_fitted_observations", n_rows, len(fitted), n_pending))
+        if n_rows != len(fitted) or int(data.targets.shape[0]) != n_rows:
+            bad.append(("gp_feature_rows_differ_from_fitted_observations", n_rows, len(fitted)))
         else:
             got = sorted(float(x) for x in data.targets[:len(fitted), 0])
             if got != sorted(fitted.values()):
@@ -240,7 +243,7 @@ def fitted_data_problems(sch, spec, stats):
         if len(set((str(sorted(fstate.config_for_trial[t].items())), r) for (t, r) in fitted)) < len(fitted):
             stats["gp_matrix_checks_with_shared_inputs"] = stats.get("gp_matrix_checks_with_shared_inputs", 0) + 1
     except (AttributeError, ImportError, TypeError) as e:      # observation point not available: noted, not a finding
-        stats["gp_matrix_check_unavailable"] = type(e).__name__
+        stats["gp_matrix_check_unavailable_" + type(e).__name__] = stats.get("gp_matrix_check_unavailable_" + type(e).__name__, 0) + 1
     if pstates and not hasattr(pstates[0], "state"):
         nd = getattr(pstates[0], "num_data", None)
         if isinstance(nd, (int, np.integer)):
